@@ -680,7 +680,14 @@ func instrumentPackage(fset *token.FileSet, imp types.Importer, lp *listPkg, pi 
 					fmt.Fprintf(&body, "\t{\n\t\tfresh := %s\n", expr)
 					for i := 0; i < st.NumFields(); i++ {
 						fld := st.Field(i)
-						if containsSyncType(fld.Type()) || !(fld.Exported() || fld.Pkg() == pkg) || fld.Name() == "_" {
+						if !(fld.Exported() || fld.Pkg() == pkg) || fld.Name() == "_" {
+							continue
+						}
+						if at := atomicStoreType(fld.Type(), pkg); at != "" && at != "any" && at != "interface{}" {
+							fmt.Fprintf(&body, "\t\t%s.%s.Store(fresh.%s.Load())\n", name, fld.Name(), fld.Name())
+							continue
+						}
+						if containsSyncType(fld.Type()) {
 							continue
 						}
 						fmt.Fprintf(&body, "\t\t%s.%s = fresh.%s\n", name, fld.Name(), fld.Name())
@@ -695,18 +702,30 @@ func instrumentPackage(fset *token.FileSet, imp types.Importer, lp *listPkg, pi 
 			}
 			fmt.Fprintf(&body, "\t%s = %s\n", name, expr)
 		case len(vs.Values) == 0:
-			if st, ok := g.Type().Underlying().(*types.Struct); ok && containsSyncType(g.Type()) {
-				// reset field by field, skipping locks
-				for i := 0; i < st.NumFields(); i++ {
-					fld := st.Field(i)
-					if containsSyncType(fld.Type()) {
-						continue
-					}
-					fmt.Fprintf(&body, "\t%s.%s = *new(%s)\n", name, fld.Name(), types.TypeString(fld.Type(), qualifier(pkg)))
+			// zero value, field by field where the struct holds sync or sync/atomic values: an
+			// atomic field is state like any other (a lock-free list head) and goes back to zero
+			// through its own API
+			var zero func(expr string, t types.Type, depth int)
+			zero = func(expr string, t types.Type, depth int) {
+				if at := atomicStoreType(t, pkg); at != "" && at != "any" && at != "interface{}" {
+					fmt.Fprintf(&body, "\t%s.Store(*new(%s))\n", expr, at)
+					return
 				}
-			} else {
-				fmt.Fprintf(&body, "\t%s = *new(%s)\n", name, types.TypeString(g.Type(), qualifier(pkg)))
+				if st, ok := t.Underlying().(*types.Struct); ok && containsSyncType(t) && depth < 4 {
+					if n, ok := t.(*types.Named); !ok || n.Obj().Pkg() == nil || (n.Obj().Pkg().Path() != "sync" && n.Obj().Pkg().Path() != "sync/atomic") {
+						for i := 0; i < st.NumFields(); i++ {
+							fld := st.Field(i)
+							if fld.Name() == "_" || !(fld.Exported() || fld.Pkg() == pkg) {
+								continue
+							}
+							zero(expr+"."+fld.Name(), fld.Type(), depth+1)
+						}
+						return
+					}
+				}
+				fmt.Fprintf(&body, "\t%s = *new(%s)\n", expr, types.TypeString(t, qualifier(pkg)))
 			}
+			zero(name, g.Type(), 0)
 		default:
 			continue // multi-value initialiser: leave alone
 		}
@@ -799,6 +818,9 @@ func editedRange(src []byte, edits []edit, start, end int) string {
 	sort.SliceStable(in, func(a, b int) bool {
 		if in[a].off != in[b].off {
 			return in[a].off > in[b].off
+		}
+		if (in[a].del > 0) != (in[b].del > 0) {
+			return in[a].del > 0
 		}
 		return in[a].seq > in[b].seq
 	})
